@@ -70,9 +70,16 @@ def parse_log(data):
             continue
         tag = line.split(' ', 1)[0]
         if tag == 'NEXT':
-            cur.append(('next', parse_header(line)))
+            try:
+                cur.append(('next', parse_header(line)))
+            except Exception:
+                # the last line of a process that was killed (watchdog, sanitizer abort) may be cut short: that case has no END
+                # line and is dropped by the caller anyway
+                continue
         elif tag in ('READ', 'READALL'):
-            m = re.match(r'\w+ n=(\d+) crc=(\d+) data=(\S*)', line)
+            m = re.match(r'\w+ n=(\d+) crc=(\d+) data=((?:[0-9a-f][0-9a-f])*|-)$', line)
+            if not m:
+                continue
             cur.append((tag.lower(), dict(n=int(m.group(1)), crc=int(m.group(2)),
                                           data=None if m.group(3) == '-' else bytes.fromhex(m.group(3)))))
         else:
